@@ -292,9 +292,19 @@ def _run(ix, R):
             gs = [g for g in e.guards if not (g.test is not None and isinstance(g.node, ast.With))]
             if guard is None and gs:
                 why.append('%s is conditional' % tgt)
+            def int_le(g_):
+                # `not (N <= i)` is `i < N` for the loop index and the layer count (integers: no unordered case)
+                rf_, fl_ = fl.tab.canon_cond(to_R(g_.rf))
+                a_ = atom_of(fl, rf_)
+                if a_ is not None and a_.head == 'cmp' and a_.extra == ('LtE',) and len(a_.args) == 2:
+                    return _G(fl.tab.atom('cmp', (a_.args[1], a_.args[0]), ('Lt',)), not (g_.positive != fl_))
+                return _G(to_R(g_.rf), g_.positive)
             if guard is not None and not (len(gs) == 1 and gs[0].rf is not None and
-                                          guard_is(fl, _G(to_R(gs[0].rf), gs[0].positive), spec(fl, guard, b), True)):
-                why.append('%s under %s' % (tgt, [g.text() for g in gs]))
+                                          (guard_is(fl, _G(to_R(gs[0].rf), gs[0].positive), spec(fl, guard, b), True) or
+                                           guard_is(fl, int_le(gs[0]), spec(fl, guard, b), True))):
+                why.append('%s under %s (read as %s; expected %s)' % (tgt, [g.text() for g in gs], [
+                    (fmt(fl, fl.tab.canon_cond(to_R(g.rf))[0]), g.positive != fl.tab.canon_cond(to_R(g.rf))[1]) for g in gs if g.rf is not None],
+                    fmt(fl, fl.tab.canon_cond(spec(fl, guard, b))[0])))
         chk('g[0]', 'self.gravity', loop=False)
         chk('H[0]', 'KBOLTZ*T[0]/(mu[0]*g[0])', loop=False)
         chk('dz[k]', '-H[k]*log(Pl[k+1]/Pl[k])')
